@@ -57,8 +57,9 @@ def gen(ctx):
 TYPES = ["bool", "int", "float", "complex", "str"]
 RANK = {"b": 0, "i": 1, "f": 2}
 TKIND = {"bool": "b", "int": "i", "float": "f", "complex": "c", "str": "s"}
-CHARS = ["", "a", "b", "c", "d"]
-WORDS = ["", "a", "b", "ab", "abc", "bonjour", "x y", "dcba"]
+CHARS = ["", "a", "b", "cd", "dcba"]
+WORDS = ["", "a", "b", "ab", "abc", "bonjour", "x y", "dcba", "abcdefghijklmnopqrstuvwxyz"]
+LONG = "x" * 33 + "yz"          # longer than the dense storage's fixed width (Type.dtype '<U32')
 
 
 def kinds_below(t):
@@ -163,6 +164,9 @@ def gen_history(rng, maxlen=40):
     n = 0
     meta = {}      # name -> (type, arity, dense)
     refmeta = []   # (type, arity, dense) of the attribute each handed-out reference came from
+    present = set()        # names that exist in the container (meta: the ones the generator keeps driving)
+    junk = set()           # sparse names that may hold keys outside the container
+    unsure = [False]       # the generator lost track of the reference indices: no more mut / mutarr
     n0 = rng.choice([0, 0, 1, 2, 3, 3, 4, 6])
     for _ in range(n0):
         ops.append(["append"])
@@ -178,13 +182,16 @@ def gen_history(rng, maxlen=40):
     def logical():
         return sorted({(a // 2 if lock else a) for a in meta})
 
-    W = [("create", 8), ("set", 30), ("get", 16), ("mut", 9), ("append", 6), ("extend_list", 4), ("extend_other", 4),
-         ("extend_self", 1.5), ("extend_bad", 1), ("clear_attr", 3), ("as_array", 6), ("len", 3), ("iter", 2),
-         ("delete", 1.5), ("has", 1.5), ("clear_all", 0.4), ("clen", 1), ("snap", 2)]
+    W = [("create", 8), ("set", 30), ("get", 14), ("mut", 7), ("update", 8), ("append", 6), ("extend_list", 4),
+         ("extend_other", 4), ("extend_self", 1.5), ("extend_bad", 1), ("extend_list_bad", 1.2), ("clear_attr", 3),
+         ("as_array", 6), ("mutarr", 2.5), ("len", 3), ("iter", 2), ("contains", 2.5), ("delete", 1.5), ("has", 1.5),
+         ("clear_all", 0.4), ("clen", 1), ("snap", 2), ("create_sized", 1), ("register", 1.5)]
+    longs = rng.random() < 0.03       # a few histories use a string longer than the dense fixed width (known finding)
     names, weights = [w[0] for w in W], [w[1] for w in W]
     while len(ops) < n0 + L:
         nm = rng.choices(names, weights)[0]
-        if not meta and nm not in ("create", "append", "extend_list", "extend_other", "extend_self", "extend_bad", "clen", "has"):
+        if not meta and nm not in ("create", "append", "extend_list", "extend_other", "extend_self", "extend_bad", "clen",
+                                   "has", "extend_list_bad", "create_sized", "register"):
             nm = "create"
         if nm == "create":
             l = rng.randrange(3)
@@ -205,6 +212,8 @@ def gen_history(rng, maxlen=40):
                 ops.append(["create", a, t, k, dense, d])
                 if d is None or d[0] == TKIND[t]:
                     meta[a] = (t, k, dense)
+                    present.add(a)
+                    junk.discard(a)
         elif nm in ("set", "get"):
             l = rng.choice(logical()) if rng.random() > 0.03 else rng.randrange(3)
             key = gen_key(rng, n) if rng.random() > pin else (rng.randrange(n) if n else 0)
@@ -212,13 +221,21 @@ def gen_history(rng, maxlen=40):
             t, k, _ = meta.get(a0, ("float", 1, False))
             if nm == "set":
                 v = gen_value(rng, t, k, rng.random() < pmal)
+                if longs and t == "str" and k == 1 and rng.random() < 0.5:
+                    v = ["str", LONG]
                 for a in names_of(l):
                     ops.append(["set", a, key, v])
+                    if not (0 <= key < n):
+                        junk.add(a)
             else:
                 for a in names_of(l):
                     ops.append(["get", a, key])
+                    if a in present and a not in meta:
+                        unsure[0] = True
                     if a in meta and meta[a][1] > 1 and (not meta[a][2] or 0 <= key < n):
                         refmeta.append(meta[a])
+        elif nm in ("mut", "mutarr") and unsure[0]:
+            continue
         elif nm == "mut":
             if not refmeta:
                 if rng.random() < 0.1:
@@ -232,7 +249,7 @@ def gen_history(rng, maxlen=40):
                 who = [rng.randrange(len(refmeta))]
             else:
                 who = sorted({max(0, len(refmeta) - 1 - j) for j in range(2 if lock else 1)})
-            t, k, _ = refmeta[who[0]]
+            t, k = refmeta[who[0]][0], refmeta[who[0]][1]
             c = rng.randrange(k)
             x = gen_comp(rng, rng.choice(kinds_below(t)), True)
             if x[0] in "bif":
@@ -240,6 +257,74 @@ def gen_history(rng, maxlen=40):
             for r_ in who:
                 if refmeta[r_][0] == t and refmeta[r_][1] == k:
                     ops.append(["mut", r_, c, x])
+        elif nm == "update":
+            l = rng.choice(logical())
+            key = gen_key(rng, n) if rng.random() < 0.15 else (rng.randrange(n) if n else 0)
+            a0 = names_of(l)[0]
+            t, k, _ = meta.get(a0, ("float", 1, False))
+            c = rng.randrange(k) if rng.random() < 0.93 else k
+            x = gen_comp(rng, rng.choice(kinds_below(t)), True)
+            if x[0] in "bif":
+                x[2] = "py"
+            for a in names_of(l):
+                if a in meta and meta[a][:2] != (t, k):
+                    continue          # in-place updates bypass the type check: keep the payload within the attribute's type
+                if a in present and a not in meta:
+                    unsure[0] = True
+                    continue
+                ops.append(["update", a, key, c, x])
+                if a in present and a not in meta:
+                    unsure[0] = True
+                if a in meta and meta[a][1] > 1 and (not meta[a][2] or 0 <= key < n):
+                    refmeta.append(meta[a])
+        elif nm == "mutarr":
+            cand = [i for i, r_ in enumerate(refmeta) if len(r_) == 5]
+            if not cand:
+                continue
+            i = rng.choice(cand[-3:])
+            t, k, _, _, nrows = refmeta[i]
+            if nrows == 0:
+                continue
+            x = gen_comp(rng, rng.choice(kinds_below(t)), True)
+            if x[0] in "bif":
+                x[2] = "py"
+            ops.append(["mutarr", i, rng.randrange(nrows), rng.randrange(k), x])
+        elif nm == "contains":
+            l = rng.choice(logical())
+            key = rng.choice([0, 1, 2, 3, 5, 42, -1, n])
+            for a in names_of(l):
+                if a in meta and meta[a][2] and meta[a][0] in ("str",):
+                    continue          # python compares the int with numpy strings: not modelled
+                ops.append(["contains", a, key])
+        elif nm == "extend_list_bad":
+            m = rng.choice([0, 1, 2])
+            ops.append(["extend_list_bad", m])
+            if not corner:
+                n += m + 1
+        elif nm == "create_sized":
+            l = rng.randrange(3)
+            t = rng.choice(TYPES)
+            k = rng.choice([1, 2, 3])
+            size = n if rng.random() < 0.7 else max(0, n + rng.choice([-1, 1, 2]))
+            a = names_of(l)[-1]
+            ops.append(["create_sized", a, t, k, None, size])
+            present.add(a)
+            if size == n:
+                meta[a] = (t, k, True)
+            else:
+                meta.pop(a, None)         # an attribute of a caller-chosen length: not driven any further
+        elif nm == "register":
+            l = rng.randrange(3)
+            t = rng.choice(TYPES)
+            k = rng.choice([1, 1, 2, 3])
+            nr = n if rng.random() < 0.8 else n + rng.choice([-1, 1])
+            rows = [[cast_comp(gen_comp(rng, TKIND[t], True), t) + (["py"] if TKIND[t] in "bif" else []) for _ in range(k)]
+                    for _ in range(max(nr, 0))]
+            a = names_of(l)[-1]
+            ops.append(["register", a, t, k, rows, None, rng.random() < 0.5])
+            if nr == n and n > 0 and a not in present:
+                meta[a] = (t, k, True)
+                present.add(a)
         elif nm == "append":
             ops.append(["append"])
             n += 1
@@ -262,15 +347,23 @@ def gen_history(rng, maxlen=40):
             l = rng.choice(logical()) if (meta and rng.random() > 0.05) else rng.randrange(3)
             for a in names_of(l):
                 ops.append([nm, a])
+                if nm == "as_array" and a in present and (a not in meta or (not meta[a][2] and a in junk)):
+                    unsure[0] = True
+                if nm == "as_array" and a in meta:
+                    refmeta.append(meta[a] + ("arr", n))
+                if nm == "clear_attr":
+                    junk.discard(a)
         elif nm == "delete":
             l = rng.choice(logical()) if rng.random() > 0.1 else rng.randrange(3)
             for a in names_of(l):
                 ops.append(["delete", a])
                 meta.pop(a, None)
+                present.discard(a)
         elif nm == "clear_all":
             ops.append(["clear_all"])
             n = 0
             meta.clear()
+            present.clear()
         elif nm == "clen":
             ops.append(["clen"])
         elif nm == "snap":
@@ -332,25 +425,54 @@ TYPE_DEFAULT = {"bool": ["b", 0], "int": ["i", 0], "float": ["f", 0], "complex":
 UNKNOWN = "unknown"
 
 
+WIDTH = 32
+
+
+def cut(row):
+    if not isinstance(row, list):
+        return row
+    return [(["s", c[1][:WIDTH]] if (isinstance(c, list) and len(c) == 2 and c[0] == "s" and isinstance(c[1], str)) else c)
+            for c in row]
+
+
+def differs(got, e):
+    """'' when equal, else a description (naming the fixed-width cut when that is the whole difference)"""
+    if got == e:
+        return ""
+    if isinstance(e, list) and got == cut(e):
+        return " (a string longer than the fixed width %d was cut)" % WIDTH
+    return " "
+
+
 class Oracle:
     """The property restated: every attribute is a python dict with a default; the dense kind additionally refuses
-    every index outside range(len(container)); nothing an in-place update of a read value does is visible anywhere
-    but at the entry that was read; every dense attribute is as long as the container."""
+    every index outside range(len(container)); an in-place update attr[k][c] = x is a write to entry k; nothing an
+    in-place update does is visible anywhere but at the entry that was read; every dense attribute is as long as the
+    container; a refused append changes nothing."""
 
-    def __init__(self):
+    def __init__(self, corner=False):
         self.n = 0
         self.attrs = {}
         self.refs = []
         self.uid = 0
+        self.corner = corner
 
     def expected_row(self, A, key):
         return A["m"].get(key, A["dflt"])
+
+    def lost(self, A, j):
+        if j in A.get("wt", set()) and not A["dense"]:
+            return " (the in-place update of this never-written entry was lost)"
+        return ""
+
+    def judged(self):
+        return {a: A for a, A in self.attrs.items() if not A.get("free")}
 
     def snapshot_check(self, snap, skip=None, what="snapshot"):
         got = {a: rows for a, rows in snap}
         if sorted(got) != sorted(self.attrs):
             return "%s lists attributes %s, the container has %s" % (what, sorted(got), sorted(self.attrs))
-        for a, A in sorted(self.attrs.items()):
+        for a, A in sorted(self.judged().items()):
             rows = got[a]
             if len(rows) != self.n:
                 return "%s of attribute %d has %d rows for %d elements" % (what, a, len(rows), self.n)
@@ -363,64 +485,107 @@ class Oracle:
                     if rows[j] and isinstance(rows[j][0], list):
                         A["m"][j] = rows[j]
                     continue
-                if rows[j] != e:
-                    return "%s: attribute %d (%s) entry %d reads %s, expected %s" % (
-                        what, a, "dense" if A["dense"] else "sparse", j, rows[j], e)
+                d = differs(rows[j], e)
+                if d:
+                    return "%s: attribute %d (%s) entry %d reads %s, expected %s%s%s" % (
+                        what, a, "dense" if A["dense"] else "sparse", j, rows[j], e, d, self.lost(A, j))
         return None
 
     def lens_check(self, lens, what):
         got = dict((a, l) for a, l in lens)
         if sorted(got) != sorted(self.attrs):
             return "%s: attributes %s, expected %s" % (what, sorted(got), sorted(self.attrs))
-        for a, A in self.attrs.items():
+        for a, A in self.judged().items():
             if A["dense"] and got[a] != self.n:
                 return "%s: dense attribute %d has length %d, the container has %d elements (not aligned)" % (what, a, got[a], self.n)
         return None
 
+    def new_attr(self, a, t, k, dense, d, m=None, free=False):
+        self.uid += 1
+        dc = TYPE_DEFAULT[t] if d is None else cast_comp(d, t)
+        self.attrs[a] = {"t": t, "k": k, "dense": bool(dense), "dflt": [dc] * k, "m": dict(m or {}), "uid": self.uid,
+                         "keys": set(), "free": free}
+
     def step(self, op, o):
         nm = op[0]
-        A = self.attrs.get(op[1]) if nm in ("delete", "has", "clear_attr", "as_array", "len", "iter", "set", "get") else None
-        if nm == "create":
-            _, a, t, k, dense, d = op
+        A = self.attrs.get(op[1]) if nm in ("delete", "has", "clear_attr", "as_array", "len", "iter", "set", "get",
+                                            "update", "contains") else None
+        if A is not None and A.get("free") and nm not in ("delete", "has"):
+            if nm in ("get", "update") and o[0] in ("val", "ok") and A["k"] > 1 and (o[0] == "ok" or o[2]):
+                self.refs.append(("vec", op[1], A["uid"], op[2]))
+            if nm == "update" and o == ["err", "index"] and A["k"] > 1:
+                self.refs.append(("vec", op[1], A["uid"], op[2]))
+            if nm == "as_array" and o[0] == "rows":
+                self.refs.append(("arr", op[1], A["uid"]))
+            return None
+        if nm in ("create", "create_sized"):
+            if nm == "create":
+                _, a, t, k, dense, d = op
+                size = None
+            else:
+                _, a, t, k, d, size = op
+                dense = True
             valid = d is None or d[0] == TKIND[t]
             if valid:
                 if o != ["ok"]:
                     return "create with %s default answered %s" % ("no" if d is None else "a well-typed", o)
-                self.uid += 1
-                dc = TYPE_DEFAULT[t] if d is None else cast_comp(d, t)
-                self.attrs[a] = {"t": t, "k": k, "dense": bool(dense), "dflt": [dc] * k, "m": {}, "uid": self.uid}
+                self.new_attr(a, t, k, dense, d, free=(size is not None and size != self.n))
             elif o[0] != "err":
                 return "create with a default of the wrong type answered %s" % (o,)
+            return None
+        if nm == "register":
+            _, a, t, k, rows, d, _ = op
+            if a in self.attrs:
+                return None if o == ["ok"] else "register on an existing name answered %s" % (o,)
+            if len(rows) != self.n or self.n == 0:
+                return None if o[0] == "err" else "register of %d rows on a container of %d elements answered %s" % (len(rows), self.n, o)
+            if o != ["ok"]:
+                return "register of a well-shaped array answered %s" % (o,)
+            self.new_attr(a, t, k, True, d, m={i: [c[:2] if c[0] != "c" else c for c in r] for i, r in enumerate(rows)})
             return None
         if nm == "delete":
             self.attrs.pop(op[1], None)
             return None if o == ["ok"] else "delete answered %s" % (o,)
         if nm == "has":
             return None if o == ["bool", op[1] in self.attrs] else "has_attribute answered %s" % (o,)
-        if nm in ("clear_attr", "as_array", "len", "iter", "set", "get") and A is None:
+        if nm in ("clear_attr", "as_array", "len", "iter", "set", "get", "update", "contains") and A is None:
             return None if o == ["err", "noattr"] else "operation on a missing attribute answered %s" % (o,)
         if nm == "clear_attr":
             A["m"] = {}
+            A["keys"] = set()
+            A["wt"] = set()
             return None if o == ["ok"] else "clear answered %s" % (o,)
+        if nm == "contains":
+            if A["dense"]:
+                return None          # python's fallback to iteration: membership among the values, not judged
+            return None if o == ["bool", op[2] in A["keys"]] else "`%d in attr` (sparse) answered %s, keys written: %s" % (op[2], o, sorted(A["keys"]))
         if nm in ("as_array", "iter"):
             if nm == "iter" and not A["dense"]:
                 return None
             if not A["dense"] and any((k < 0 or k >= self.n) for k in A["m"]):
+                if nm == "as_array" and o[0] == "rows":
+                    self.refs.append(("arr", op[1], A["uid"]))
                 return None      # writes outside the container happened on the dict storage: not an element index
             if o[0] != "rows" or len(o[1]) != self.n:
                 return "%s answered %s for a container of %d elements" % (nm, o, self.n)
+            if nm == "as_array":
+                self.refs.append(("arr", op[1], A["uid"]))
             for j in range(self.n):
                 e = self.expected_row(A, j)
                 if e == UNKNOWN:
                     A["m"][j] = o[1][j]
-                elif o[1][j] != e:
-                    return "%s of %s attribute: entry %d is %s, expected %s" % (nm, "dense" if A["dense"] else "sparse", j, o[1][j], e)
+                else:
+                    d = differs(o[1][j], e)
+                    if d:
+                        return "%s of %s attribute: entry %d is %s, expected %s%s%s" % (nm, "dense" if A["dense"] else "sparse", j, o[1][j], e, d, self.lost(A, j))
             return None
         if nm == "len":
             if A["dense"] and o != ["nat", self.n]:
                 return "len(dense attribute) answered %s, the container has %d elements" % (o, self.n)
+            if not A["dense"] and not any((k < 0 or k >= self.n) for k in A["keys"]) and o != ["nat", len(A["keys"])]:
+                return "len(sparse attribute) answered %s, %d keys were written" % (o, len(A["keys"]))
             return None
-        if nm in ("set", "get"):
+        if nm in ("set", "get", "update"):
             key = op[2]
             if A["dense"] and not (0 <= key < self.n):
                 if o != ["err", "oob"]:
@@ -435,47 +600,82 @@ class Oracle:
                 if o != ["ok"]:
                     return "%s attribute of type %s arity %d answered %s to the value %s" % ("dense" if A["dense"] else "sparse", A["t"], A["k"], o, op[3])
                 A["m"][key] = row
+                A["keys"].add(key)
+                A.get("wt", set()).discard(key)
                 return None
             e = self.expected_row(A, key)
+            if nm == "update":
+                if A["k"] == 1:
+                    return None if o[0] == "err" else "item assignment on a scalar entry answered %s" % (o,)
+                self.refs.append(("vec", op[1], A["uid"], key))
+                c = op[3]
+                if not (0 <= c < A["k"]):
+                    return None if o == ["err", "index"] else "item assignment at component %d of %d answered %s" % (c, A["k"], o)
+                if o != ["ok"]:
+                    return "attr[%d][%d] = x answered %s" % (key, c, o)
+                written = key in A["keys"]
+                if not written and not A["dense"]:
+                    # known finding inplace-update-of-unset-entry (replayed separately on every run): the sparse read of
+                    # a never-written entry is a detached copy; no expectation is kept for this entry
+                    A["m"][key] = UNKNOWN
+                    return None
+                if e != UNKNOWN:
+                    new = list(e)
+                    new[c] = cast_comp(op[4], A["t"])
+                    A["m"][key] = new
+                return None
             if o[0] != "val":
                 return "%s read at %d answered %s, expected %s" % ("dense" if A["dense"] else "sparse", key, o, e)
             if A["k"] > 1:
-                self.refs.append((op[1], A["uid"], key))
+                self.refs.append(("vec", op[1], A["uid"], key))
             if o[2] != (A["k"] > 1):
                 return "read of an arity-%d attribute returned a %s" % (A["k"], "vector" if o[2] else "scalar")
             if e == UNKNOWN:
                 A["m"][key] = o[1]
                 return None
-            if o[1] != e:
-                return "%s read at %d answered %s, expected %s" % ("dense" if A["dense"] else "sparse", key, o[1], e)
+            d = differs(o[1], e)
+            if d:
+                extra = self.lost(A, key)
+                return "%s read at %d answered %s, expected %s%s%s" % ("dense" if A["dense"] else "sparse", key, o[1], e, d, extra)
             return None
-        if nm == "mut":
+        if nm in ("mut", "mutarr"):
             if op[1] >= len(self.refs):
-                return None if o == ["err", "noref"] else "mut of a missing reference answered %s" % (o,)
+                return None if o == ["err", "noref"] else "update of a missing reference answered %s" % (o,)
+            rf = self.refs[op[1]]
+            if (nm == "mut") != (rf[0] == "vec"):
+                return None if o == ["err", "badref"] else "update through the wrong kind of reference answered %s" % (o,)
             if o[0] != "snap":
                 return "in-place update answered %s" % (o,)
-            a, uid, key = self.refs[op[1]]
+            if nm == "mut":
+                _, a, uid, key = rf
+            else:
+                _, a, uid = rf
+                key = op[2]
             if a in self.attrs and self.attrs[a]["uid"] == uid and not (0 <= key < self.n):
                 self.attrs[a]["m"][key] = UNKNOWN      # the updated entry itself is outside the snapshot
-            m = self.snapshot_check(o[1], skip=(a, uid, key), what="after the in-place update of the value read at attribute %d entry %d" % (a, key))
-            return m
+            skip = (a, uid, key)
+            if nm == "mutarr" and a in self.attrs and self.attrs[a]["uid"] == uid and not self.attrs[a]["dense"]:
+                skip = None                            # a sparse export is detached: nothing may change
+            return self.snapshot_check(o[1], skip=skip, what="after the in-place update of the value read at attribute %d entry %d" % (a, key))
         if nm == "snap":
             if o[0] != "snap":
                 return "snapshot answered %s" % (o,)
             return self.snapshot_check(o[1])
-        if nm in ("append", "extend_list", "extend_other", "extend_self", "extend_bad", "clear_all"):
-            if nm == "extend_bad":
+        if nm in ("append", "extend_list", "extend_other", "extend_self", "extend_bad", "clear_all", "extend_list_bad"):
+            if nm == "extend_bad" or (nm == "extend_list_bad" and self.corner):
                 if o[0] != "growerr":
-                    return "appending a non-collection answered %s" % (o,)
+                    return "appending %s answered %s" % ("a non-collection" if nm == "extend_bad" else "a list with an item that cannot be unpacked", o)
                 if o[2] != self.n:
-                    return "a refused append changed the container length to %d" % o[2]
+                    return "a refused append changed the container length from %d to %d" % (self.n, o[2]) + \
+                        ("; " + (self.lens_check(o[3], "after the refused append") or "") if self.lens_check(o[3], "x") else "")
                 return self.lens_check(o[3], "after a refused append")
             if nm == "clear_all":
                 self.n = 0
                 self.attrs = {}
             else:
                 self.n += {"append": 1, "extend_list": op[1] if nm == "extend_list" else 0,
-                           "extend_other": op[1] if nm == "extend_other" else 0, "extend_self": self.n}[nm]
+                           "extend_other": op[1] if nm == "extend_other" else 0, "extend_self": self.n,
+                           "extend_list_bad": (op[1] + 1) if nm == "extend_list_bad" else 0}[nm]
             if o[0] != "grow":
                 if o[0] == "growerr":
                     m = self.lens_check(o[3], "after %s failed with %s (container length now %d)" % (nm, o[1], o[2]))
@@ -490,7 +690,7 @@ class Oracle:
 
 
 def oracle(case, obs):
-    orc = Oracle()
+    orc = Oracle(corner=case.get("cont") == "corner")
     for k, (op, o) in enumerate(zip(case["ops"], obs)):
         if o[0] == "other":
             return "op %d %s: unexpected outcome %s" % (k, op, o[1])
@@ -501,7 +701,10 @@ def oracle(case, obs):
 
 
 def classify(msg):
-    for key, pat in (("dense-index-equals-size", "expected OutOfBoundsError"),
+    for key, pat in (("string-longer-than-fixed-width", "longer than the fixed width"),
+                     ("inplace-update-of-unset-entry", "never-written entry was lost"),
+                     ("refused-append-half-done", "refused append changed the container length"),
+                     ("dense-index-equals-size", "expected OutOfBoundsError"),
                      ("shared-default-object", "after the in-place update"),
                      ("container-iadd-container", "extend_other failed"),
                      ("container-iadd-self", "extend_self"),
@@ -543,13 +746,10 @@ def run_one(case):
 
 # ====================================================================== Gallina encoders
 class Interner:
-    def __init__(self):
-        self.codes = {"": 0}
+    """strings travel to Coq as the list of their character codes"""
 
     def code(self, s):
-        if s not in self.codes:
-            self.codes[s] = len(self.codes)
-        return self.codes[s]
+        return zlist([ord(ch) for ch in s])
 
 
 def comp_term(c, I):
@@ -563,7 +763,7 @@ def comp_term(c, I):
     if k == "c":
         return "(CC %s %s)" % (zlit(c[1]), zlit(c[2]))
     if k == "s":
-        return "(CS %s)" % zlit(I.code(c[1]))
+        return "(CS %s)" % I.code(c[1])
     return "CX"
 
 
@@ -577,13 +777,14 @@ def value_term(v, I):
         # numpy arrays of complex / str hand out numpy scalar types outside the attribute vocabulary
         return "(VSeq %s)" % coq_list(["CX" if c[0] in "cs" else comp_term(c, I) for c in v[1]])
     if k == "str":
-        return "(VStr %s %s)" % (zlit(I.code(v[1])), zlist([I.code(ch) for ch in v[1]]))
+        return "(VStr %s)" % I.code(v[1])
     raise ValueError(v)
 
 
 TYT = {"bool": "TBool", "int": "TInt", "float": "TFloat", "complex": "TComplex", "str": "TString"}
 ERR = {"oob": "EOob", "size": "ESize", "type": "EType", "enum": "EEnum", "notiter": "ENotIter", "noattr": "ENoAttr",
-       "dflt": "EDflt", "badappend": "EBadAppend", "index": "EIndex", "noref": "ENoRef"}
+       "dflt": "EDflt", "badappend": "EBadAppend", "index": "EIndex", "noref": "ENoRef", "unpack": "EUnpack",
+       "notsub": "ENotSub", "badref": "EBadRef", "ambiguous": "EAmbiguous", "shape": "EShape"}
 
 
 def op_term(op, I):
@@ -616,6 +817,21 @@ def op_term(op, I):
         return "CLen"
     if nm == "snap":
         return "Snap"
+    if nm == "update":
+        return "(Update %s %s %s %s)" % (zlit(op[1]), zlit(op[2]), zlit(op[3]), comp_term(op[4], I))
+    if nm == "mutarr":
+        return "(MutArr %d%%nat %s %s %s)" % (op[1], zlit(op[2]), zlit(op[3]), comp_term(op[4], I))
+    if nm == "contains":
+        return "(Contains %s %s)" % (zlit(op[1]), zlit(op[2]))
+    if nm == "extend_list_bad":
+        return "(ExtendListBad %s)" % zlit(op[1])
+    if nm == "create_sized":
+        return "(CreateSized %s %s %s %s %s)" % (zlit(op[1]), TYT[op[2]], zlit(op[3]),
+                                                 coq_option(op[4], lambda d: comp_term(d, I)), zlit(op[5]))
+    if nm == "register":
+        rows = coq_list([coq_list([comp_term(c, I) for c in r]) for r in op[4]])
+        return "(Register %s %s %s %s %s)" % (zlit(op[1]), TYT[op[2]], zlit(op[3]), rows,
+                                              coq_option(op[5], lambda d: comp_term(d, I)))
     raise ValueError(op)
 
 
@@ -695,6 +911,40 @@ def small_exhaustive():
     return out
 
 
+WITNESSES = {
+    # key -> (case, indices of the two observations that the property wants equal, what)
+    "inplace-update-of-unset-entry": (
+        {"cont": "data", "lock": True, "ops": [["append"], ["create", 0, "float", 2, False, None], ["create", 1, "float", 2, True, None],
+                                               ["update", 0, 0, 0, ["f", 40, "py"]], ["update", 1, 0, 0, ["f", 40, "py"]],
+                                               ["get", 0, 0], ["get", 1, 0]]},
+        (5, 6),
+        "attr[0][0] = 5. on a never-written entry of a vector attribute: the dense storage stores the update (its read is a "
+        "view), the sparse storage loses it (its read is a detached copy of the default): sparse and dense answer differently"),
+    "string-longer-than-fixed-width": (
+        {"cont": "data", "lock": True, "ops": [["append"], ["create", 0, "str", 1, False, None], ["create", 1, "str", 1, True, None],
+                                               ["set", 0, 0, ["str", LONG]], ["set", 1, 0, ["str", LONG]],
+                                               ["get", 0, 0], ["get", 1, 0]]},
+        (5, 6),
+        "a 35-character string written to a scalar string attribute: the dense storage (dtype '<U32') and every as_array "
+        "keep 32 characters, the sparse storage returns all 35: sparse and dense answer differently"),
+}
+
+
+def replay_witnesses(ctx):
+    """the _refuted theorems' witnesses, run on the implementation: reported as KNOWN-FINDING while they still fail"""
+    for key, (case, (i, j), what) in WITNESSES.items():
+        ob = run_one(case)
+        same = ob[i][:3] == ob[j][:3]
+        ctx.obligation("witness of known finding %s still fails on the implementation" % key, "known-finding-witness",
+                       True, "observations %s / %s" % (ob[i], ob[j]))
+        if same:
+            ctx.log("known finding %s: the witness no longer fails (the code was repaired?) - theorem C05_agree_*_refuted "
+                    "describes the model, check Gen.v" % key)
+            ctx.notes.append("witness of %s no longer fails" % key)
+        else:
+            ctx.violation(what, {"case": case, "observed": ob, "class": key}, key=key)
+
+
 def run(ctx):
     quick = ctx.tier == "quick"
     n_hist = 1600 if quick else 100000
@@ -758,6 +1008,8 @@ def run(ctx):
             fails.append((idx, m))
     ctx.obligation("oracle: every observation of the implementation satisfies the dict-with-default / bounds / no-aliasing / "
                    "alignment semantics", "oracle-on-implementation", True, "%d failing cases" % len(fails))
+
+    replay_witnesses(ctx)
 
     # 2. kernel-checked correspondence
     bad = []
